@@ -616,6 +616,7 @@ type SpecFunc struct {
 	BodySrc string
 	Opaque  bool
 	UF      bool
+	Rec     bool
 	Reads   []string
 	Pos     string
 	SMT     string // raw SMT definition (escape hatch)
@@ -790,6 +791,10 @@ func parseSpec(rest string, pos string) (*SpecFunc, error) {
 		case strings.HasPrefix(rest, "uf "):
 			sf.UF = true
 			rest = strings.TrimSpace(rest[3:])
+			continue
+		case strings.HasPrefix(rest, "rec "):
+			sf.Rec = true
+			rest = strings.TrimSpace(rest[4:])
 			continue
 		}
 		break
